@@ -287,7 +287,18 @@ func (s *JavaFullListener) EnterAnnotation(ctx *parser.AnnotationContext) {
 	}
 }
 
+func resetMethodScope() {
+	// parameters and local variables belong to one method; methods of anonymous classes share
+	// the scope of the method they are written in
+	if currentType == "CreatorClass" {
+		return
+	}
+	localVars = make(map[string]string)
+	formalParameters = make(map[string]string)
+}
+
 func (s *JavaFullListener) EnterConstructorDeclaration(ctx *parser.ConstructorDeclarationContext) {
+	resetMethodScope()
 	name := ctx.Identifier().GetText()
 	position := BuildPosition(ctx.BaseParserRuleContext, name)
 
@@ -315,6 +326,7 @@ func (s *JavaFullListener) ExitConstructorDeclaration(ctx *parser.ConstructorDec
 }
 
 func (s *JavaFullListener) EnterMethodDeclaration(ctx *parser.MethodDeclarationContext) {
+	resetMethodScope()
 	name := ""
 
 	if ctx.Identifier() != nil {
